@@ -11,7 +11,7 @@ GLeap == /\ pos <= Len(items)
          /\ LET res == RunAll(rx, pos, out, <<>>, pol)
             IN /\ rx' = res.rx /\ out' = res.out
                /\ hist' = IF fault.k = "err2" THEN <<res.hist, RunAll(rx, pos, out, <<>>, "lenient").hist>> ELSE <<res.hist>>
-         /\ pos' = Len(items) + 1 /\ UNCHANGED <<blocks, fault, fgn, pol, items, aux>>
+         /\ pos' = Len(items) + 1 /\ UNCHANGED <<blocks, fault, fgn, nz, pol, items, aux>>
 GLeapSpec == GInit /\ [][GLeap]_gvars
-Dump == Done => PrintT(<<"TR", ToJson([items |-> items, fault |-> fault, fgn |-> fgn, alts |-> hist])>>)
+Dump == Done => PrintT(<<"TR", ToJson([items |-> items, fault |-> fault, fgn |-> fgn, nz |-> nz, alts |-> hist])>>)
 =============================================================================
